@@ -14,8 +14,8 @@ def main():
     for n in names:
         meta = json.load(open(f"/verif/seeded/{n}/meta.json"))
         db = meta.get("detected_by")
-        if not db or (isinstance(db, dict) and db.get("superseded")) or "superseded" in json.dumps(db):
-            print(f"{n}: skipped (no detecting check recorded / superseded)"); continue
+        if not db or (isinstance(db, dict) and (db.get("superseded") or db.get("missed") or not db.get("check"))) or "superseded" in json.dumps(db):
+            print(f"{n}: skipped (no detecting check recorded / superseded / recorded miss)"); continue
         checks = re.findall(r"\b(C\d\d)\b(?: \(?(?:quick|thorough))?", db.get("check", "") if isinstance(db, dict) else str(db))
         checks = list(dict.fromkeys(checks)) or [meta["property"]]
         wt = tempfile.mkdtemp(prefix="regress.", dir="/tmp"); os.rmdir(wt)
